@@ -29,9 +29,9 @@ def write():
         "setup_cmd": "bin/ebv setup",
         "hooks": {
             "guard": "eyeball_verif",
-            "enable": "RUSTFLAGS=\"--cfg eyeball_verif\" (only the thread-schedule checks need it)",
+            "enable": "RUSTFLAGS=\"--cfg eyeball_verif\" (only the thread-schedule checks C02-C04 and the mid-drain streams of C05/C06/C08 need it)",
             "baseline_off_cmd": "cd /repo && cargo nextest run --workspace --no-fail-fast --offline || cargo test --workspace --no-fail-fast --offline",
-            "source_commits": ["b6ca4dd1273035caa31757a04883e9b9002fc002"],
+            "source_commits": ["b6ca4dd1273035caa31757a04883e9b9002fc002", "e55f6912e2cffad7d447ed9cb340d39010918b11"],
             "add_only": True,
         },
         "engines": [{"name": "coq-model+correspondence", "path": "/verif/bin/ebv",
